@@ -1087,6 +1087,8 @@ def _run(ctx, torch):
 
     _xo.api_history_and_dtype(ctx, "C11")
 
+    import extra_oracles as _xo
+    _xo.module_instance_independence(ctx, "C11")
     ctx.notes["rule"] = (
         "complete: exhaustive cube of (lmax,res_beta,res_alpha) in ({None} ∪ [-3..9])^3 (thorough [-4..14]); init: both constructors on "
         "lmax ∈ {None,-2..8} × res ∈ {None, int, pair with None combos} (quick: subsample) incl. the observed FFT/einsum branch; "
